@@ -45,6 +45,10 @@ type Ctx struct {
 	Analysed    map[string]interface{}
 	Extra       map[string]interface{}
 	seen        map[string]bool
+	evaluated   *Result
+	// SelfCheckFailed is set by the thorough tier when a mutant was not caught or a
+	// neutral refactoring raised an alarm: the run then exits 2 without a VIOLATION line.
+	SelfCheckFailed string
 }
 
 func NewCtx(prop, tier string) *Ctx {
@@ -143,15 +147,19 @@ func ReadKnown(path string) ([]KnownFinding, error) {
 // ---------------------------------------------------------------------------
 
 type Result struct {
+	OK         int
 	Violations int
 	Known      []Obligation
 	Stale      []KnownFinding
 	Bad        []Obligation
 }
 
-// Finish applies floors and known findings, writes evidence and (on violation)
-// the violations file, prints the protocol lines and returns the exit code.
-func (c *Ctx) Finish(verifDir string, seed int, wall float64, cmd string) int {
+// Evaluate applies the instance floors and the known-findings file and
+// classifies the obligations. It is idempotent.
+func (c *Ctx) Evaluate(verifDir string) Result {
+	if c.evaluated != nil {
+		return *c.evaluated
+	}
 	// floors
 	counts := map[string]int{}
 	for _, o := range c.Obs {
@@ -206,6 +214,19 @@ func (c *Ctx) Finish(verifDir string, seed int, wall float64, cmd string) int {
 		}
 	}
 	res.Violations = len(res.Bad)
+	res.OK = nOK
+	c.evaluated = &res
+	return res
+}
+
+// Finish evaluates, writes evidence and (on violation) the violations file,
+// prints the protocol lines and returns the exit code.
+func (c *Ctx) Finish(verifDir string, seed int, wall float64, cmd string) int {
+	res := c.Evaluate(verifDir)
+	nOK := res.OK
+	if c.SelfCheckFailed != "" {
+		fmt.Println("SELF-CHECK FAILED (the checker, not go-cvss, is at fault): " + c.SelfCheckFailed)
+	}
 
 	// print known findings (dedup by rule+construct)
 	printed := map[string]bool{}
@@ -305,6 +326,9 @@ func (c *Ctx) Finish(verifDir string, seed int, wall float64, cmd string) int {
 		}
 		fmt.Printf("VIOLATION property=%s replay=%s\n", c.Prop, violPath)
 		return 1
+	}
+	if c.SelfCheckFailed != "" {
+		return 2
 	}
 	fmt.Printf("ok property=%s tier=%s obligations=%d discharged=%d known_findings=%d wall=%.1fs\n", c.Prop, c.Tier, len(c.Obs), nOK, len(res.Known), wall)
 	return 0
